@@ -1,7 +1,216 @@
-/- C05 — placeholder until the handle theorems are merged (see SfProofs/Handle*.lean) -/
-import SfModel.Handle
+/-
+  C05 — read and write calls honour their count, bounds and position contract.
+  Property theorems only (model: SfModel/Handle.lean `stepRead` / `stepWrite`; lemmas: SfProofs/Handle*.lean).
+
+  `HInv` (SfProofs/HandleInv.lean) is the handle invariant; it holds for every handle `openHandle` returns and is
+  preserved by every operation (`HInv_preserved`, `HInv_reachable` below), so the hypotheses `HInv h s` quantify
+  over exactly the reachable states and more.
+-/
+import SfProofs.HandleContract
 namespace Sf.C05
-/-- a zero-length read returns 0 and changes neither handle nor store (the wrapper returns before looking at the handle) -/
-theorem read_zero (h : H) (s : Store) (ty : Ty) (fc : Bool) : stepRead h s ty fc 0 = (h, s, { ret := 0, err := h.error }) := by
-  simp [stepRead]
+open Sf
+
+/-! ## the invariant reaches every state -/
+
+/-- every handle a successful open returns satisfies the invariant -/
+theorem HInv_initial (ix : Nat) (s0 : Store) (mode : Mode) (fmt : Nat) (ch sr : Int) (h : H) (s : Store)
+    (ho : openHandle ix s0 mode fmt ch sr = .ok h s) : HInv h s :=
+  HInv_openHandle ix s0 mode fmt ch sr h s ho
+
+/-- every operation (read, write, seek, flag command, truncate, close) preserves it -/
+theorem HInv_preserved (h : H) (s : Store) (op : Op) (hi : HInv h s) :
+    HInv (stepAny h s op).1 (stepAny h s op).2.1 :=
+  HInv_stepAny h s op hi
+
+/-- hence it holds after every operation sequence on every opened handle -/
+theorem HInv_reachable (ix : Nat) (s0 : Store) (mode : Mode) (fmt : Nat) (ch sr : Int) (h : H) (s : Store)
+    (ho : openHandle ix s0 mode fmt ch sr = .ok h s) (ops : List Op) :
+    HInv (runOps h s ops).1 (runOps h s ops).2 :=
+  Sf.HInv_reachable ix s0 mode fmt ch sr h s ho ops
+
+/-- the invariant gives what the task names: positive channel count and sample size, non-negative positions and
+    data offset, and for a read-only handle `rpos ≤ frames` with the announced data present in the store -/
+theorem HInv_gives (h : H) (s : Store) (hi : HInv h s) :
+    0 < h.ch ∧ 0 < h.enc.nbytes ∧ 0 ≤ h.rpos ∧ 0 ≤ h.wpos ∧ 0 ≤ h.dataoffset ∧
+    (h.mode = .r → h.rpos ≤ h.frames ∧ 0 ≤ h.frames ∧
+      h.dataoffset + h.frames * (h.bw : Int) ≤ (s.bytes.length : Int)) :=
+  ⟨hi.ch_pos, hi.nb_pos, hi.rpos_nn, hi.wpos_nn, hi.off_nn,
+   fun hm => ⟨(hi.rd hm).rpos_le, hi.frames_nn hm, (hi.rd hm).covers⟩⟩
+
+def wS0 : Store := { bytes := [1,0, 2,0, 3,0], pos := 0 }
+def wH0 : H := { store := 0, mode := .rw, container := .raw, enc := .pcm ⟨16, false, false⟩, big := false, ch := 2,
+                 sr := 8000, fmtWord := 0x040002, frames := 1, wpos := 1, lastOp := .rw, haveWritten := true,
+                 datalength := 6, filelength := 6 }
+
+/-- `rpos ≤ frames` and `0 ≤ frames` are invariants of read-only handles only.  On a RDWR handle `sf_seek` accepts any
+    non-negative target (here: frame 5 of a 1-frame file), and SFC_FILE_TRUNCATE with −1 stores −1 as the frame
+    count (see C09).  Both states are reachable, so `HInv` cannot promise more for writable handles. -/
+theorem rdwr_positions_unbounded :
+    (runOps wH0 wS0 [.seek 0 5 0]).1.rpos = 5 ∧ (runOps wH0 wS0 [.seek 0 5 0]).1.frames = 1 ∧
+    (runOps wH0 wS0 [.truncate 0 (-1)]).1.frames = -1 ∧
+    openHandle 0 wS0 .rw 0x040002 2 8000 = .ok wH0 wS0 := by
+  refine ⟨by decide, by decide, by decide, by rfl⟩
+
+/-! ## requests
+
+`ReadValid h fc n` / `WriteValid h fc n` (SfProofs/HandleContract.lean): `0 < n`, the mode allows the call, and an
+items call (`fc = false`) asks for a multiple of the channel count.  `framesOf` / `itemsOf` convert a return value
+of either call variant to frames / items.  `reqLen h fc n` is the number of buffer cells the request covers. -/
+
+/-! ## read_contract — clauses that hold in every mode, for every request (valid or not) -/
+
+/-- `0 ≤ r ≤ requested`; the buffer returned has exactly the requested number of cells (the call never touches a
+    cell outside the requested region); the read position advances by exactly the frames returned; the store is
+    not modified -/
+theorem read_contract (h : H) (s : Store) (ty : Ty) (fc : Bool) (n : Int) (hi : HInv h s) :
+    let r := stepRead h s ty fc n
+    0 ≤ r.2.2.ret ∧ (0 ≤ n → r.2.2.ret ≤ n) ∧ (n ≤ 0 → r.2.2.ret = 0) ∧
+    r.2.2.data.length = (reqLen h fc n).toNat ∧
+    r.1.rpos = h.rpos + framesOf h fc r.2.2.ret ∧
+    r.2.1.bytes = s.bytes :=
+  read_contract_any h s ty fc n hi
+
+/-- at (or, in RDWR mode, beyond) the end of the data a valid request returns 0, zero-fills the whole requested
+    region, reports no error and changes nothing but the error field -/
+theorem read_at_end (h : H) (s : Store) (ty : Ty) (fc : Bool) (n : Int) (hv : ReadValid h fc n)
+    (he : h.frames ≤ h.rpos) :
+    stepRead h s ty fc n = ({ h with error := 0 }, s,
+      { ret := 0, err := 0, data := List.replicate (reqLen h fc n).toNat 0, hasData := true }) :=
+  stepRead_eof h s ty fc n hv.1 hv.2.1 hv.2.2 he
+
+/-- a valid request never reports an error, whatever the error field was before -/
+theorem read_valid_no_error (h : H) (s : Store) (ty : Ty) (fc : Bool) (n : Int) (hi : HInv h s)
+    (hv : ReadValid h fc n) :
+    (stepRead h s ty fc n).2.2.err = 0 ∧ (stepRead h s ty fc n).1.error = 0 :=
+  read_valid_err h s ty fc n hi hv.1 hv.2.1 hv.2.2
+
+/-- in every mode the items returned are the decoded bytes the codec read at the current byte position
+    (`readPos`: the store position, or the position of frame `rpos` when the last operation was not a read) -/
+theorem read_data_any_mode (h : H) (s : Store) (ty : Ty) (fc : Bool) (n : Int) (hi : HInv h s)
+    (hv : ReadValid h fc n) (he : h.rpos < h.frames) :
+    let r := stepRead h s ty fc n
+    r.2.2.data.take (itemsOf h fc r.2.2.ret).toNat =
+      (h.enc.decodeAll h.conv ty ((s.bytes.drop (readPos h s)).take ((reqLen h fc n).toNat * h.enc.nbytes))).take
+        (itemsOf h fc r.2.2.ret).toNat :=
+  read_data_any h s ty fc n hi hv.1 hv.2.1 hv.2.2 he
+
+/-- … and on a read-only handle that byte position is the one of frame `rpos`: the items returned are the decoded
+    bytes `dataoffset + rpos·bw …` of the store -/
+theorem read_data_read_mode (h : H) (s : Store) (ty : Ty) (fc : Bool) (n : Int) (hi : HInv h s) (hm : h.mode = .r)
+    (hv : ReadValid h fc n) (he : h.rpos < h.frames) :
+    let r := stepRead h s ty fc n
+    r.2.2.data.take (itemsOf h fc r.2.2.ret).toNat =
+      (h.enc.decodeAll h.conv ty ((s.bytes.drop (h.dataoffset + h.rpos * (h.bw : Int)).toNat).take
+        ((reqLen h fc n).toNat * h.enc.nbytes))).take (itemsOf h fc r.2.2.ret).toNat := by
+  have := read_data_any h s ty fc n hi hv.1 hv.2.1 hv.2.2 he
+  rw [readPos_rmode h s hi hm he] at this
+  exact this
+
+/-! ## read_contract — read-only handles: the full statement -/
+
+/-- On a read-only handle a valid request for `m` frames (`n = m` frames or `n = m·ch` items) delivers exactly
+    `d = min m (frames − rpos)` frames:
+    the return value is `d` (frames call) or `d·ch` (items call: always a whole number of frames);
+    the first `d·ch` buffer cells are items `rpos·ch …` of the file's decoded item stream;
+    the read position becomes `rpos + d`; no error. -/
+theorem read_contract_rmode (h : H) (s : Store) (ty : Ty) (fc : Bool) (n : Int) (hi : HInv h s) (hm : h.mode = .r)
+    (hv : ReadValid h fc n) :
+    ∃ m d : Nat, reqLen h fc n = (m : Int) * (h.ch : Int) ∧ (d : Int) = min (m : Int) (h.frames - h.rpos) ∧
+      let r := stepRead h s ty fc n
+      r.2.2.ret = (if fc then (d : Int) else (d : Int) * (h.ch : Int)) ∧
+      r.1.rpos = h.rpos + d ∧
+      r.2.2.err = 0 ∧
+      r.2.2.data.length = m * h.ch ∧
+      r.2.2.data.take (d * h.ch) = ((itemStream h s.bytes ty).drop (h.rpos.toNat * h.ch)).take (d * h.ch) :=
+  read_rmode_full h s ty fc n hi hm hv.1 hv.2.2
+
+/-- an items call on a read-only handle returns a whole number of frames -/
+theorem read_whole_frames (h : H) (s : Store) (ty : Ty) (n : Int) (hi : HInv h s) (hm : h.mode = .r)
+    (hv : ReadValid h false n) : (stepRead h s ty false n).2.2.ret % (h.ch : Int) = 0 := by
+  obtain ⟨m, d, _, _, hret, _⟩ := read_rmode_full h s ty false n hi hm hv.1 hv.2.2
+  simp only [Bool.false_eq_true, if_false] at hret
+  rw [hret]; exact Int.mul_emod_left _ _
+
+/-- less than requested is returned only when the data ends: afterwards the read position is the frame count -/
+theorem read_short_only_at_end (h : H) (s : Store) (ty : Ty) (fc : Bool) (n : Int) (hi : HInv h s) (hm : h.mode = .r)
+    (hv : ReadValid h fc n) (hshort : (stepRead h s ty fc n).2.2.ret < n) :
+    (stepRead h s ty fc n).1.rpos = (stepRead h s ty fc n).1.frames :=
+  read_short_rmode h s ty fc n hi hm hv.1 hv.2.2 hshort
+
+/-! ### where the read-only hypothesis is needed
+
+On a RDWR handle the frame count can exceed what the store holds: SFC_FILE_TRUNCATE sets `sf.frames` before
+`psf_ftruncate` fails on virtual I/O (C09 `truncate_minus_one_sets_frames`).  After that a valid items read can return
+a fraction of a frame and stop short of the frame count.  (Real library, same script: `ret=3` for a 4-item request
+on a 2-channel file.) -/
+
+/-- the read-only clauses stated for every mode -/
+def read_whole_frames_full : Prop :=
+  ∀ (h : H) (s : Store) (ty : Ty) (n : Int), HInv h s → ReadValid h false n →
+    (stepRead h s ty false n).2.2.ret % (h.ch : Int) = 0 ∧
+    ((stepRead h s ty false n).2.2.ret < n → (stepRead h s ty false n).1.rpos = (stepRead h s ty false n).1.frames)
+
+def wS : Store := { bytes := [1,0, 2,0, 3,0], pos := 0 }
+def wH : H := { store := 0, mode := .rw, container := .raw, enc := .pcm ⟨16, false, false⟩, big := false, ch := 2,
+                sr := 8000, fmtWord := 0x040002, frames := 1, wpos := 1, lastOp := .rw, haveWritten := true,
+                datalength := 6, filelength := 6 }
+theorem wH_opened : openHandle 0 wS .rw 0x040002 2 8000 = .ok wH wS := by rfl
+
+/-- witness: open RDWR a 6-byte stereo 16-bit RAW file (1 frame + 1 sample), SFC_FILE_TRUNCATE to 2 frames (fails,
+    frames = 2 stays), seek to 0, read 4 items: 3 items come back and the read position is 1 of 2 -/
+theorem read_whole_frames_full_fails : ¬ read_whole_frames_full := by
+  intro hfull
+  have hi := HInv_reachable 0 wS .rw 0x040002 2 8000 wH wS wH_opened [.truncate 0 2, .seek 0 0 0]
+  exact absurd (hfull _ _ .s16 4 hi (by unfold ReadValid; decide)).1 (by decide)
+
+/-- what holds: read-only handles (`read_whole_frames`, `read_short_only_at_end` above) -/
+theorem read_whole_frames_partial (h : H) (s : Store) (ty : Ty) (n : Int) (hi : HInv h s) (hm : h.mode = .r)
+    (hv : ReadValid h false n) :
+    (stepRead h s ty false n).2.2.ret % (h.ch : Int) = 0 ∧
+    ((stepRead h s ty false n).2.2.ret < n → (stepRead h s ty false n).1.rpos = (stepRead h s ty false n).1.frames) :=
+  ⟨read_whole_frames h s ty n hi hm hv, read_short_only_at_end h s ty false n hi hm hv⟩
+
+/-! ## write_contract -/
+
+/-- A valid write request is accepted in full (the model has no I/O failure): it returns `n`, reports no error,
+    advances the write position by exactly the frames written and makes the frame count `max frames wpos'`.
+    Every other field is unchanged except the header bookkeeping (`haveWritten`, `lastOp`, PEAK, `dataend`, and the
+    three lengths a header rewrite recomputes). -/
+theorem write_contract (h : H) (s : Store) (ty : Ty) (fc : Bool) (n : Int) (data : List Int) (hi : HInv h s)
+    (hv : WriteValid h fc n) :
+    let r := stepWrite h s ty fc n data
+    r.2.2.ret = n ∧ r.2.2.err = 0 ∧ r.1.error = 0 ∧
+    r.1.wpos = h.wpos + framesOf h fc n ∧
+    r.1.frames = max h.frames r.1.wpos ∧
+    r.1.rpos = h.rpos ∧ r.1.ch = h.ch ∧ r.1.mode = h.mode ∧ r.1.enc = h.enc :=
+  write_contract_valid h s ty fc n data hi hv.1 hv.2.1 hv.2.2
+
+/-- only the first `n·ch` (frames call) / `n` (items call) cells of the caller's buffer influence the result -/
+theorem write_reads_only_request (h : H) (s : Store) (ty : Ty) (fc : Bool) (n : Int) (data data' : List Int)
+    (hd : data.take (reqLen h fc n).toNat = data'.take (reqLen h fc n).toNat) :
+    stepWrite h s ty fc n data = stepWrite h s ty fc n data' :=
+  write_take_irrelevant h s ty fc n data data' hd
+
+/-! ## non-vacuity: a 3-frame stereo 16-bit RAW file -/
+
+def exStore : Store := { bytes := [1,0, 2,0, 3,0, 4,0, 5,0, 6,0], pos := 0 }
+def exH : H := { store := 0, mode := .r, container := .raw, enc := .pcm ⟨16, false, false⟩, big := false, ch := 2,
+                 sr := 8000, fmtWord := 0x040002, frames := 3, lastOp := .r, datalength := 12, filelength := 12 }
+
+example : openHandle 0 exStore .r 0x040002 2 8000 = .ok exH exStore := by rfl
+example : HInv exH exStore := HInv_openHandle 0 exStore .r 0x040002 2 8000 exH exStore (by rfl)
+example : ReadValid exH false 4 ∧ ReadValid exH true 5 := by unfold ReadValid; decide
+/-- 4 items are delivered in full; 5 frames are cut to the 3 available, the tail of the buffer stays untouched -/
+example : (stepRead exH exStore .s16 false 4).2.2.ret = 4 ∧ (stepRead exH exStore .s16 false 4).2.2.data = [1, 2, 3, 4] ∧
+    (stepRead exH exStore .s16 true 5).2.2.ret = 3 ∧ (stepRead exH exStore .s16 true 5).1.rpos = 3 ∧
+    (stepRead exH exStore .s16 true 5).2.2.data = [1, 2, 3, 4, 5, 6, -23131, -23131, -23131, -23131] := by decide
+
+def exW : H := { exH with mode := .w, lastOp := .w, frames := 0, datalength := 0, filelength := 0 }
+example : openHandle 0 {} .w 0x040002 2 8000 = .ok exW {} := by rfl
+example : HInv exW {} ∧ WriteValid exW true 2 :=
+  ⟨HInv_openHandle 0 {} .w 0x040002 2 8000 exW {} (by rfl), by unfold WriteValid; decide⟩
+example : (stepWrite exW {} .s16 true 2 [1, 2, 3, 4, 99]).2.2.ret = 2 ∧
+    (stepWrite exW {} .s16 true 2 [1, 2, 3, 4, 99]).1.frames = 2 ∧
+    (stepWrite exW {} .s16 true 2 [1, 2, 3, 4, 99]).2.1.bytes = [1,0, 2,0, 3,0, 4,0] := by decide
+
 end Sf.C05
